@@ -89,6 +89,25 @@ fn check_dedup(max_len: usize, alphabet: u8) -> (u64, Vec<String>) {
 fn main() {
    let args: Vec<String> = std::env::args().collect();
    let what = args.get(1).map(|s| s.as_str()).unwrap_or("");
+   if what == "versions-dump" {
+      // versions-dump <n>: prints the version vectors of versions_base(n), one per line (T = Total, D = Delta, X = TotalDelta, N = New)
+      let n: usize = args[2].parse().unwrap();
+      for v in versions_base(n) {
+         let s: String = v.iter().map(|x| match x { MirRelationVersion::Total => 'T', MirRelationVersion::Delta => 'D', MirRelationVersion::TotalDelta => 'X', _ => 'N' }).collect();
+         println!("VEC {}", s);
+      }
+      return;
+   }
+   if what == "versions-check" {
+      // versions-check <n> <assignment as string of t/d>: is this assignment admitted by some vector of versions_base(n)?
+      let n: usize = args[2].parse().unwrap();
+      let a: Vec<bool> = args[3].chars().map(|c| c == 'd').collect();
+      let vs = versions_base(n);
+      let covered = a.len() == n && vs.iter().any(|v| v.len() == n && (0..n).all(|i| admits(&v[i], a[i])));
+      println!("EVALUATED 1 REJECTED 0");
+      if covered { println!("PASSED"); } else { println!("FAILED versions_cover_every_assignment_with_a_delta INPUT n={} assignment={}", n, args[3]); std::process::exit(1); }
+      return;
+   }
    let (evals, fails) = match what {
       "versions" => check_versions(args[2].parse().unwrap()),
       "dedup" => check_dedup(args[2].parse().unwrap(), args[3].parse().unwrap()),
